@@ -23,17 +23,31 @@ Lemma no_method_405 : forall s r methods, find_resource s (r_path r) = Some (Pla
   final_message (Some s) r = Some (mk_msg METHOD_NOT_ALLOWED
      (if is_request (r_code r) then ascii_bytes "Error: Method not allowed!" else ascii_bytes "Error: Method not recognized!")).
 Proof.
-  intros s r methods H1 H2. unfold final_message, respond, render. rewrite H1, H2.
+  intros s r methods H1 H2. unfold final_message, respond, respond_plain, render. rewrite H1, H2.
   destruct (is_request (r_code r)); reflexivity.
 Qed.
 
+(* the plain path: a resource.Resource, or an observable resource asked without Observe=0 (Resource._render_to_pipe) *)
+Definition plain_methods (s : site) (r : request) : option (list Z) :=
+  match find_resource s (r_path r) with
+  | Some (Plain ms) => Some ms
+  | Some (Observable ms _) => if observing r then None else Some ms
+  | _ => None
+  end.
 Definition handled (s : site) (r : request) (methods : list Z) : Prop :=
-  find_resource s (r_path r) = Some (Plain methods) /\ is_request (r_code r) = true /\
+  plain_methods s r = Some methods /\ is_request (r_code r) = true /\
   existsb (Z.eqb (r_code r)) methods = true.
 
+Lemma plain_respond : forall s r methods, plain_methods s r = Some methods -> respond (Some s) r = respond_plain methods r.
+Proof.
+  intros s r methods H. unfold plain_methods in H. unfold respond.
+  destruct (find_resource s (r_path r)) as [[ms| |ms mode]|]; try discriminate.
+  - inversion H; reflexivity.
+  - destruct (observing r); [discriminate|]. inversion H; reflexivity.
+Qed.
 Lemma handled_render : forall s r methods, handled s r methods ->
   respond (Some s) r = match render methods r with Responded m => [RAdd (VMsg m) true; RReturn] | Raised e => [RRaise e] end.
-Proof. intros s r methods (H1 & _ & _). unfold respond. rewrite H1. reflexivity. Qed.
+Proof. intros s r methods (H1 & _ & _). rewrite (plain_respond _ _ _ H1). reflexivity. Qed.
 
 (* a returned message is sent, with the default success code / the request's No-Response filled in if it had none *)
 Lemma returned_message : forall s r methods m, handled s r methods -> r_outcome r = Return (VMsg m) ->
@@ -45,10 +59,10 @@ Qed.
 Lemma fill_defaults_spec : forall r m,
   m_code (fill_defaults r m) = Some (match m_code m with Some c => c | None => default_code (r_code r) end) /\
   m_payload (fill_defaults r m) = m_payload m /\ m_cf (fill_defaults r m) = m_cf m /\
-  m_nr (fill_defaults r m) = match m_nr m with Some n => Some n | None => r_nr r end.
+  m_nr (fill_defaults r m) = match m_nr m with Some n => Some n | None => r_nr r end /\ m_obs (fill_defaults r m) = m_obs m.
 Proof. intros; repeat split. Qed.
 Lemma returned_noresponse_sentinel : forall s r methods, handled s r methods -> r_outcome r = Return VNoResponse ->
-  final_message (Some s) r = Some {| m_code := Some (default_code (r_code r)); m_payload := []; m_cf := None; m_nr := Some 26 |}.
+  final_message (Some s) r = Some {| m_code := Some (default_code (r_code r)); m_payload := []; m_cf := None; m_nr := Some 26; m_obs := None |}.
 Proof.
   intros s r methods H Ho. unfold final_message. rewrite (handled_render _ _ _ H).
   destruct H as (_ & H2 & H3). unfold render. rewrite H2, H3, Ho. reflexivity.
@@ -96,32 +110,73 @@ Proof.
   destruct Ho as [Ho|[Ho|[Ho|[Ho|[Ho|[Ho|Ho]]]]]]; rewrite Ho; reflexivity.
 Qed.
 
-(* totality: for resources built on resource.Resource there is always a final message *)
-Definition not_raw (srv : option site) (r : request) : Prop :=
-  match srv with Some s => find_resource s (r_path r) <> Some Raw | None => True end.
-Lemma final_message_total : forall srv r, not_raw srv r -> exists m, final_message srv r = Some m.
+(* ---------- the observable path: Observe=0 to an observable resource (interfaces.ObservableResource._render_to_pipe) ---------- *)
+Definition final_of_exc (e : exc) : option msg := match fst (exception_to_value e) with VMsg m => Some m | _ => None end.
+(* what a plain resource with these handlers answers: the table above *)
+Definition plain_final (methods : list Z) (r : request) : option msg :=
+  match render methods r with Responded m => Some m | Raised e => final_of_exc e end.
+Lemma final_of_exc_some : forall e, exists m, final_of_exc e = Some m.
+Proof. intros [[[m| | |]|]|]; eexists; reflexivity. Qed.
+Lemma plain_final_message : forall s r methods, plain_methods s r = Some methods ->
+  final_message (Some s) r = plain_final methods r.
 Proof.
-  intros [s|] r Hn; [|eexists; reflexivity].
-  unfold final_message, respond, not_raw in *.
-  destruct (find_resource s (r_path r)) as [[methods|]|] eqn:Hf; [| congruence | eexists; reflexivity].
-  unfold render.
-  destruct (is_request (r_code r)) eqn:H1; cbn [negb andb]; [|eexists; reflexivity].
-  destruct (existsb (Z.eqb (r_code r)) methods) eqn:H2; cbn [negb]; [|eexists; reflexivity].
-  destruct (r_outcome r) as [[m| | |]|[[[m| | |]|]|]|l] eqn:Ho; cbn; eexists; reflexivity.
+  intros s r methods H. unfold final_message, plain_final. rewrite (plain_respond _ _ _ H). unfold respond_plain.
+  destruct (render methods r); reflexivity.
 Qed.
-(* the final message always has a code *)
-Lemma final_message_has_code : forall srv r m, not_raw srv r ->
-  (forall m', r_outcome r = Raise_ (ERenderable (TMReturn (VMsg m'))) -> m_code m' <> None) ->
-  final_message srv r = Some m -> m_code m <> None.
+(* the decision table of the observable path, with its case split:
+   - add_observation raising: that exception, rendered as usual;
+   - observation accepted (also when deregistered early): the plain table — unless the observation gets established
+     (successful first response), in which case the first response is not final (C08 takes over);
+   - observation DECLINED: a successful or unsuccessful returned message is final as usual, but every exception out of
+     the handler (renderable errors, 4.05 included) is replaced by the AttributeError of the finally block: bare 5.00 (finding) *)
+Lemma observable_final_message : forall s r methods mode,
+  find_resource s (r_path r) = Some (Observable methods mode) -> observing r = true ->
+  final_message (Some s) r =
+    match mode with
+    | ORaise e => final_of_exc e
+    | ODecline => match render methods r with Responded m => Some m | Raised _ => Some bare_500 end
+    | _ => if establishes methods mode r then None else plain_final methods r
+    end.
 Proof.
-  intros [s|] r m Hn Hc; [|intros H; inversion H; cbn; congruence].
-  unfold final_message, respond, not_raw in *.
-  destruct (find_resource s (r_path r)) as [[methods|]|] eqn:Hf; [| congruence | intros H; inversion H; cbn; congruence].
-  unfold render.
-  destruct (is_request (r_code r)); cbn [negb]; [|intros H; inversion H; cbn; congruence].
-  destruct (existsb (Z.eqb (r_code r)) methods); cbn [negb]; [|intros H; inversion H; cbn; congruence].
-  destruct (r_outcome r) as [[m0| | |]|[[[m0| | |]|]|]|l] eqn:Ho; cbn; intros H; inversion H; subst; cbn; try congruence.
-  apply Hc. reflexivity.
+  intros s r methods mode Hf Ho. unfold final_message, respond, plain_final. rewrite Hf, Ho. unfold respond_observable.
+  destruct mode as [| | |e]; try reflexivity.
+  - destruct (render methods r) as [m|e] eqn:Hr; [|unfold establishes; rewrite Hr; reflexivity].
+    destruct (establishes methods OAccept r); reflexivity.
+  - destruct (render methods r) as [m|e] eqn:Hr; reflexivity.
+  - destruct (render methods r) as [m|e] eqn:Hr; reflexivity.
+Qed.
+(* totality: whenever the rendering is of the finalising kind — not a resource with its own render_to_pipe, not an
+   observation being established — there is a final message *)
+Definition finalising (srv : option site) (r : request) : Prop :=
+  match srv with
+  | Some s => match find_resource s (r_path r) with
+              | Some Raw => False
+              | Some (Observable ms mode) => observing r = true -> establishes ms mode r = false
+              | _ => True
+              end
+  | None => True
+  end.
+Lemma respond_shapes : forall srv r, finalising srv r ->
+  (exists m, respond srv r = [RAdd (VMsg m) true; RReturn]) \/
+  (exists m, respond srv r = [RAdd (VMsg m) true; RRaise EOther]) \/
+  (exists e, respond srv r = [RRaise e]).
+Proof.
+  intros [s|] r Hn; [|left; eexists; reflexivity]. unfold respond, finalising in *.
+  destruct (find_resource s (r_path r)) as [[methods| |methods mode]|]; [| destruct Hn | | right; right; eexists; reflexivity].
+  - unfold respond_plain. destruct (render methods r); [left|right; right]; eexists; reflexivity.
+  - destruct (observing r); [specialize (Hn eq_refl)|].
+    + unfold respond_observable. rewrite Hn.
+      destruct mode as [| | |e]; [| | |right; right; eexists; reflexivity];
+        destruct (render methods r); try (left; eexists; reflexivity); try (right; right; eexists; reflexivity).
+      right; left; eexists; reflexivity.
+    + unfold respond_plain. destruct (render methods r); [left|right; right]; eexists; reflexivity.
+Qed.
+Lemma final_message_total : forall srv r, finalising srv r -> exists m, final_message srv r = Some m.
+Proof.
+  intros srv r Hn. unfold final_message. destruct (respond_shapes srv r Hn) as [(m & ->)|[(m & ->)|(e & ->)]].
+  - eexists; reflexivity.
+  - eexists; reflexivity.
+  - apply final_of_exc_some.
 Qed.
 
 (* ================================================================ the pipes of one request *)
@@ -336,23 +391,31 @@ Proof.
   repeat split; auto. intros Hr. destruct H1 as [->| ->]; [reflexivity|discriminate].
 Qed.
 
-(* what the rendering of a request built on resource.Resource does to its pipes: exactly the final message, once *)
-Lemma respond_not_raw : forall srv r, not_raw srv r ->
-  (exists m, respond srv r = [RAdd (VMsg m) true; RReturn]) \/ (exists e, respond srv r = [RRaise e]).
+(* what a finalising rendering does to its pipes: exactly the final message, once, and the pipes end *)
+Lemma coroutine_final_once : forall srv r, finalising srv r ->
+  exists m acts n, final_message srv r = Some m /\
+                   run_ractions live (respond srv r) = (ended, acts, n) /\ filter is_send acts = [Send m true].
 Proof.
-  intros [s|] r Hn; [|left; eexists; reflexivity]. unfold respond, not_raw in *.
-  destruct (find_resource s (r_path r)) as [[methods|]|]; [| congruence | right; eexists; reflexivity].
-  destruct (render methods r); [left|right]; eexists; reflexivity.
-Qed.
-Lemma coroutine_final_once : forall srv r, not_raw srv r ->
-  exists m logs n, final_message srv r = Some m /\
-                   run_ractions live (respond srv r) = (ended, map Log logs ++ [Send m true], n).
-Proof.
-  intros srv r Hn. unfold final_message. destruct (respond_not_raw srv r Hn) as [(m & ->)|(e & ->)].
-  - exists m, [], 0. split; reflexivity.
+  intros srv r Hn. unfold final_message. destruct (respond_shapes srv r Hn) as [(m & ->)|[(m & ->)|(e & ->)]].
+  - exists m, [Send m true], 0. repeat split; reflexivity.
+  - exists m, [Send m true; Log LogDiscarded], 0. repeat split; reflexivity.
   - cbn [run_ractions]. rewrite live_raise.
     destruct e as [[[m| | |]|]|]; cbn;
-      [exists m, [], 0 | exists bare_500, [LogRenderFailed], 0 | exists bare_500, [LogRenderFailed], 0
-      | exists bare_500, [LogRenderFailed], 0 | exists bare_500, [LogRenderFailed], 0 | exists bare_500, [LogException], 0];
-      split; reflexivity.
+      [exists m, [Send m true], 0 | exists bare_500, [Log LogRenderFailed; Send bare_500 true], 0 | exists bare_500, [Log LogRenderFailed; Send bare_500 true], 0
+      | exists bare_500, [Log LogRenderFailed; Send bare_500 true], 0 | exists bare_500, [Log LogRenderFailed; Send bare_500 true], 0
+      | exists bare_500, [Log LogException; Send bare_500 true], 0];
+      repeat split; reflexivity.
 Qed.
+
+(* an observation being established: the first response goes out non-final with Observe:0, the pipes stay set up *)
+Lemma observable_established : forall s r methods mode,
+  find_resource s (r_path r) = Some (Observable methods mode) -> observing r = true -> establishes methods mode r = true ->
+  exists m, render methods r = Responded m /\ is_successful (code_of_msg m) = true /\ mode = OAccept /\
+            run_ractions live (respond (Some s) r) = (live, [Send (set_obs m (Some 0)) false], 0).
+Proof.
+  intros s r methods mode Hf Ho He. unfold respond. rewrite Hf, Ho. unfold respond_observable.
+  unfold establishes in He. destruct mode; try discriminate.
+  destruct (render methods r) as [m|e] eqn:Hr; [|discriminate].
+  exists m. repeat split; auto. unfold establishes. rewrite Hr, He. reflexivity.
+Qed.
+
